@@ -65,6 +65,7 @@ class Interp(ExprMixin):
         self.backend_attrs = {}
         self.call_records = {}
         self.div_sites = {}
+        self.int_inverts = {}        # `~e` whose operand may be a plain int/bool
         self._cur = None
         self.calls = {}              # caller fq -> set of callee descriptors
         self.callsites = {}          # callee fq -> list of (caller fi, call node)
